@@ -3,8 +3,8 @@
 EXTENDS App
 CONSTANTS MaxParts, Orders
 SmallOrders == {-1, 0, 1}
-P == [cls : Classes, ord : Orders]
-PF == [cls : Classes, ord : Orders, fail : BOOLEAN]
+P == [cls : Classes, ord : Orders] \cup {Marked}
+PF == [cls : Classes, ord : Orders, fail : BOOLEAN] \cup {[cls |-> "mark", ord |-> 0, fail |-> f] : f \in BOOLEAN}
 SeqsUpTo(S, n) == UNION {[1..k -> S] : k \in 0..n}
 NoFailSeqs(S, n) == SeqsUpTo(S, n)
 \* at most one failing participant
